@@ -34,6 +34,32 @@ def brute(rows, q, d):
     return inter, cov, ovl
 
 
+def brute_batch(rows, queries, d):
+    """the same definition as [brute], for all queries at once: boolean matrices
+    (query x row) intersecting / covered, and per query whether some finite row has a side
+    equal to a query side (a tie of < against <=)"""
+    m = len(queries)
+    n = len(rows)
+    if n == 0:
+        z = np.zeros((m, 0), dtype=bool)
+        return z, z, np.zeros(m, dtype=bool)
+    R = np.array(rows, dtype='float64').reshape(n, 2 * d)
+    Q = np.array(queries, dtype='float64').reshape(m, 2 * d)
+    fin = ~np.isnan(R).any(axis=1)
+    inter = np.broadcast_to(fin, (m, n)).copy()
+    cov = inter.copy()
+    tie = np.zeros((m, n), dtype=bool)
+    with np.errstate(invalid='ignore'):
+        for k in range(d):
+            lo, hi = R[None, :, k], R[None, :, d + k]
+            qlo, qhi = Q[:, None, k], Q[:, None, d + k]
+            inter &= (lo <= qhi) & (qlo <= hi)
+            cov &= (qlo <= lo) & (hi <= qhi)
+            tie |= (lo == qhi) | (hi == qlo) | (lo == qlo) | (hi == qhi)
+    cov &= inter
+    return inter, cov, (tie & fin[None, :]).any(axis=1)
+
+
 def brute_total(rows, d):
     fin = [r for r in rows if not isnan_row(r)]
     if not fin:
